@@ -124,13 +124,23 @@ let to_req (tv : sexp -> 'v) (e : sexp) : 'v M.req =
   | L [A "fromdur"; ac; u; d; ks; kn; s; n] -> M.RFromDur (to_bool ac, to_cexprs u, to_zlist d, to_cexpr ks, to_cexpr kn, to_z s, to_z n)
   | _ -> failwith "bad request"
 
-(* <id> <f32|f64|q|z> <std|core|-> <request> *)
+let to_treq (e : sexp) : M.treq =
+  match e with
+  | L [A "fmt"; st; a; sg; pl; shown; one] -> M.TFmt (to_bool st, to_zlist a, to_zlist sg, to_zlist pl, to_zlist shown, to_bool one)
+  | L [A "debug"; shown; L abbrs; d] -> M.TDebug (to_zlist shown, List.map to_zlist abbrs, to_zlist d)
+  | L [A "parse"; L units; s; ok] ->
+    M.TParse (List.map (function L [a; sg; pl] -> ((to_zlist a, to_zlist sg), to_zlist pl) | _ -> failwith "bad unit labels") units,
+              to_zlist s, to_bool ok)
+  | _ -> failwith "bad text request"
+
+(* <id> <f32|f64|q|z|text> <std|core|-> <request> *)
 let run (st : string) (lib : sexp) (r : sexp) : string =
   match st with
   | "f64" -> String.concat " " (List.map string_of_z (M.run64 (to_lib lib) (to_req to_z r)))
   | "f32" -> String.concat " " (List.map string_of_z (M.run32 (to_lib lib) (to_req to_z r)))
   | "q" -> String.concat " " (List.map string_of_q (M.q_run (to_req to_q r)))
   | "z" -> String.concat " " (List.map string_of_z (M.z_run (to_req to_z r)))
+  | "text" -> String.concat " " (List.map string_of_z (M.text_run (to_treq r)))
   | _ -> failwith ("unknown storage class: " ^ st)
 
 let () =
